@@ -367,10 +367,22 @@ def m_sorted(ctx, interp, args, kwargs):
     items = interp.iterate(args[0]) if not isinstance(args[0], (set, frozenset)) else list(args[0])
     key = kwargs.get("key")
     rev = kwargs.get("reverse", False)
-    if contains_sym(items) or key is not None and not isinstance(key, type(len)):
+    if key is not None and not isinstance(key, type(len)):
+        # interpreted key function: compute the keys through the interpreter, then sort (stably) on concrete keys
+        keys = [interp.call(key, [it], {}) for it in items]
+        if contains_sym(keys):
+            if len(items) <= 1:
+                return ctx.alloc(list(items))
+            raise Unsupported("sorted() with symbolic keys")
+        try:
+            order = sorted(range(len(items)), key=lambda i: keys[i], reverse=bool(rev))
+        except TypeError as e:
+            raise SymRaise(e)
+        return ctx.alloc([items[i] for i in order])
+    if contains_sym(items):
         if key is None and len(items) <= 1:
             return ctx.alloc(list(items))
-        raise Unsupported("sorted() of symbolic members / with interpreted key")
+        raise Unsupported("sorted() of symbolic members")
     try:
         return ctx.alloc(sorted(items, key=key, reverse=rev))
     except TypeError as e:
@@ -1095,6 +1107,14 @@ def LOWER():
 
 
 def call_method(ctx, interp, obj, name, args, kwargs):
+    if name == "__getitem__" and len(args) == 1 and not kwargs:
+        return ops.getitem(ctx, obj, args[0])
+    if name == "__len__" and not args:
+        return ops.py_len(ctx, obj)
+    if name == "__contains__" and len(args) == 1:
+        return ops.wrap_bool(ops.contains_term(ctx, args[0], obj))
+    if name == "__eq__" and len(args) == 1:
+        return ops.wrap_bool(ops.eq_term(ctx, obj, args[0]))
     if isinstance(obj, SNorm):
         if name == "lower" and not args:
             return SNorm(obj.term, True, obj.strip)
@@ -1324,6 +1344,10 @@ def list_method(ctx, interp, lst, name, args, kwargs):
     if name == "copy":
         return ctx.alloc(list(lst))
     if name == "sort":
+        if kwargs.get("key") is not None and not isinstance(kwargs.get("key"), type(len)):
+            res = m_sorted(ctx, interp, [list(lst)], kwargs)
+            lst[:] = res
+            return None
         if contains_sym(lst) or kwargs.get("key") is not None:
             raise Unsupported("list.sort with symbolic members / key")
         try:
@@ -1341,7 +1365,72 @@ def list_method(ctx, interp, lst, name, args, kwargs):
     raise Unsupported("list.%s" % name)
 
 
+# ---- dicts with symbolic keys: a side table of (key, value) entries per dict object ------------------
+_MISSING_ = object()
+
+
+def _symtable(ctx, d):
+    tbl = ctx.__dict__.setdefault("symdicts", {})
+    ent = tbl.get(id(d))
+    if ent is None:
+        ent = tbl[id(d)] = (d, [])
+    return ent[1]
+
+
+def symdict_lookup(ctx, interp, d, key):
+    """value stored under a (possibly symbolic) key, or _MISSING_; forks on key equalities"""
+    entries = _symtable(ctx, d)
+    for k, v in reversed(entries):
+        t = ops.eq_term(ctx, key, k)
+        if t is True or (t is not False and ctx.branch(t)):
+            return v
+    if contains_sym(key):
+        for k in list(d.keys()):
+            try:
+                t = ops.eq_term(ctx, key, k)
+            except Unsupported:
+                continue
+            if t is True or (t is not False and ctx.branch(t)):
+                return d[k]
+        return _MISSING_
+    try:
+        return d[key] if key in d else _MISSING_
+    except TypeError as e:
+        raise SymRaise(e)
+
+
+def symdict_set(ctx, interp, d, key, value):
+    if not ctx.is_local(d):
+        ctx.effect("item-store", d, "<symbolic key>")
+    entries = _symtable(ctx, d)
+    for ent_i, (k, v) in enumerate(entries):
+        t = ops.eq_term(ctx, key, k)
+        if t is True or (t is not False and ctx.branch(t)):
+            entries[ent_i] = (k, value)
+            return None
+    entries.append((key, value))
+    return None
+
+
+def has_symentries(ctx, d):
+    tbl = ctx.__dict__.get("symdicts", {})
+    return id(d) in tbl and bool(tbl[id(d)][1])
+
+
 def container_method(ctx, interp, obj, name, args, kwargs):
+    if isinstance(obj, dict) and name in ("get", "__getitem__", "setdefault", "__contains__") and args and \
+            (contains_sym(args[0]) or has_symentries(ctx, obj)):
+        v = symdict_lookup(ctx, interp, obj, args[0])
+        if name == "__contains__":
+            return v is not _MISSING_
+        if v is not _MISSING_:
+            return v
+        if name == "get":
+            return args[1] if len(args) > 1 else None
+        if name == "setdefault":
+            symdict_set(ctx, interp, obj, args[0], args[1] if len(args) > 1 else None)
+            return args[1] if len(args) > 1 else None
+        raise SymRaise(KeyError("<symbolic key>"))
     mutators = {"add", "update", "discard", "remove", "pop", "clear", "setdefault", "popitem"}
     if name in mutators and not ctx.is_local(obj):
         ctx.effect("container-mutation", obj, name)
